@@ -212,7 +212,25 @@ pub broadcast proof fn b_sub_at_char(s: Seq<char>, c: char, i: int)
         else if is_sub_at(s, seq![c], i) { assert(s.subrange(i, i + 1)[0] == c); }
     }
 }
-pub broadcast group group_lem { b_sub_at_char, b_asc_intro, b_slice_ok_ascii, b_slice_ascii, b_ascii_len, b_ascii_boff, b_ascii_cidx }
+/// an ASCII character is one byte
+pub broadcast proof fn b_encode_ascii_char(c: char)
+    requires (c as u32) < 128
+    ensures #[trigger] encode_utf8(seq![c]).len() == 1
+{
+    assert(is_ascii_chars(seq![c])) by { assert forall|i: int| 0 <= i < 1 implies (#[trigger] seq![c][i] as u32) < 128 by { } }
+    is_ascii_chars_encode_utf8(seq![c]);
+}
+/// a string that starts with an ASCII character can be cut after it (`if s.starts_with('/') { &s[1..] }`)
+pub broadcast proof fn b_starts_ascii_boundary(s: &str, c: char)
+    requires #[trigger] is_sub_at(s@, seq![c], 0), (c as u32) < 128
+    ensures is_char_boundary(s.spec_bytes(), 1), 1 <= s.spec_bytes().len(), cidx(s@, 1) == 1, is_char_boundary(s.spec_bytes(), s.spec_bytes().len() as int)
+{
+    b_str_ends_boundary(s);
+    assert(s@.subrange(0, 1) =~= seq![c]);
+    assert(is_ascii_chars(s@.subrange(0, 1))) by { assert forall|i: int| 0 <= i < 1 implies (#[trigger] s@.subrange(0, 1)[i] as u32) < 128 by { } }
+    lemma_skip_ascii(s, 1);
+}
+pub broadcast group group_lem { b_encode_ascii_char, b_starts_ascii_boundary, b_sub_at_char, b_asc_intro, b_slice_ok_ascii, b_slice_ascii, b_ascii_len, b_ascii_boff, b_ascii_cidx }
 
 // ------------------------------------------------------------------ digit strings
 pub open spec fn pow10(n: nat) -> nat decreases n { if n == 0 { 1 } else { 10 * pow10((n - 1) as nat) } }
